@@ -3,6 +3,8 @@ CONSTANTS
   MaxEpoch = 2
   MaxLeaves = 4
   Export = TRUE
+  MaxU = 3
+  MaxI = 2
   PrevEpochChecked = TRUE
   ChildPrefixChecked = TRUE
   PrefixFreeChecked = TRUE
